@@ -8,6 +8,7 @@ site statistics (is the variable released in the caller?) are used only as a cro
 Per function and per owning local the states NULL / OWNED / MAYBE / FREED / TRANSFERRED / UNKNOWN
 are propagated over CFG x status; anything not understood moves the variable to UNKNOWN, which is
 never reported: the rule errs towards silence."""
+import os
 import re
 
 from .flow import ERR, OKS, SWAP, _elem_status_effect, _refine, edge_facts, provenance, return_blocks, status_var
@@ -21,6 +22,7 @@ ALLOC = {"KSI_malloc", "KSI_calloc", "malloc", "calloc", "realloc", "KSI_strdup_
 EXTERNAL_PRODUCERS = {("i2d_X509", 1): "own", ("KSI_strdup", 1): "own"}
 
 N, O, M, F, T, U = "NULL", "OWNED", "MAYBE", "FREED", "TRANSFERRED", "UNKNOWN"
+BU = "BORROWED"      # a plain borrowed pointer (getter / elementAt result): like UNKNOWN, except that an acquisition may overwrite it
 
 
 def is_release(name):
@@ -266,6 +268,110 @@ def consume_fields(prog, name, k, stack=()):
 _prod_cache = {}
 
 
+_fwk = {}
+
+
+def _fails_without_keeping(prog, name, k):
+    """True when every failing return of `name` is reached without the callee having stored, appended, released or passed on its
+    argument k (so that after `res = name(.., x, ..)` with res != KSI_OK the object is still the caller's).  List append / insert
+    operations keep nothing when they fail (list.c grows the array first).  Unknown callees: False."""
+    key = (name, k)
+    if key in _fwk:
+        return _fwk[key]
+    _fwk[key] = False
+    if re.match(r"^\w+List_(append|insertAt)$", name or ""):
+        _fwk[key] = True
+        return True
+    from .flow import ERR, OKS, StatusGraph, return_blocks
+    fns = prog.functions.get(name, [])
+    if len(fns) != 1:
+        return False
+    cf = fns[0]
+    if k >= len(cf.params):
+        return False
+    pn = cf.params[k]["n"]
+    sg = StatusGraph(cf)
+    if sg.var is None:
+        return False
+    keeping = {}
+    for bb, i_, el in cf.elems():
+        if not isinstance(el["e"], dict):
+            continue
+        for m in walk(el["e"]):
+            if m.get("k") == "asg":
+                r = cf.resolve(strip(m["r"]))
+                while isinstance(r, dict) and r.get("k") == "cast":
+                    r = cf.resolve(strip(r["e"]))
+                if is_var(r, pn):
+                    keeping.setdefault(bb, []).append((i_, None))
+            elif m.get("k") == "call":
+                for j, a in enumerate(m["a"]):
+                    if passes_var(cf, a, pn) and call_consumer_kind(prog, cf, m, j) != "borrow":
+                        # a nested status-assigned consumer that itself keeps nothing on failure is fine on its failure edge; to stay
+                        # simple the block counts as keeping unless that callee is such a one and the block's failure edge is taken
+                        inner = m.get("fn")
+                        keeping.setdefault(bb, []).append((i_, inner if inner and inner != name and _fails_without_keeping(prog, inner, j) else None))
+    if not keeping:
+        return False
+    from .flow import g_ok
+
+    def removed(e):
+        src = e.src if hasattr(e, "src") else None
+        return False
+    # explore: a keeping block may be left only through the failure edge of its (single) conditional consumer
+    seen = {}
+    work = []
+    for st in (OKS, ERR):
+        seen[(cf.entry, st)] = None
+        work.append((cf.entry, st))
+    bad = False
+    while work:
+        b, st = work.pop()
+        outs = sg.block_out(b, st)
+        kept_here = keeping.get(b)
+        for (rb, ri) in return_blocks(cf):
+            if rb == b and ERR in sg.block_out(b, st, upto=ri):
+                if kept_here and any(inner is None or i_ < ri for i_, inner in kept_here if inner is None):
+                    bad = True
+        for e in cf.succ[b]:
+            for o in outs:
+                from .flow import _refine
+                if not _refine(cf, e, sg.var, o):
+                    continue
+                if kept_here:
+                    if any(inner is None for i_, inner in kept_here):
+                        # unconditional keeping: from here on the object is kept; a failing return later on is a failure after keeping
+                        node = (e.dst, o, "K")
+                    elif any(g_ok(inner).holds(cf, e) for i_, inner in kept_here):
+                        node = (e.dst, o, "K")
+                    else:
+                        node = (e.dst, o)
+                else:
+                    node = (e.dst, o)
+                if node not in seen:
+                    seen[node] = (b, st)
+                    work.append(node if len(node) == 2 else None) if len(node) == 2 else None
+                    if len(node) == 3:
+                        kq = [(e.dst, o)]
+                        ks = {(e.dst, o)}
+                        # once kept: any reachable failing return makes the answer False
+                        while kq and not bad:
+                            kb, kst = kq.pop()
+                            for (rb, ri) in return_blocks(cf):
+                                if rb == kb and ERR in sg.block_out(kb, kst, upto=ri):
+                                    bad = True
+                            for e2 in cf.succ[kb]:
+                                for o2 in sg.block_out(kb, kst):
+                                    if _refine(cf, e2, sg.var, o2) and (e2.dst, o2) not in ks:
+                                        ks.add((e2.dst, o2))
+                                        kq.append((e2.dst, o2))
+        work = [w for w in work if w is not None]
+        if bad:
+            break
+    _fwk[key] = not bad
+    return not bad
+
+
 def producer_kind(prog, name, k, stack=()):
     """'own' | 'borrow' | 'unknown' for out-parameter k of function `name`."""
     key = (name, k)
@@ -436,6 +542,15 @@ def _status_assigned_calls(fn, bid, i, sv):
         c = fn.as_call(el["r"]) if not (isinstance(el["r"], dict) and el["r"].get("k") == "ref") else None
         if c is not None:
             out.append(c)
+    if el.get("k") == "call" and any("List_" in m for m in (elems[i].get("mac") or [])):
+        # the working arm of a list macro ((l != NULL && l->op != NULL) ? l->op(..) : KSI_INVALID_ARGUMENT): its value reaches the status
+        # through the conditional expressions of the macro, a few blocks further on (res = <the whole macro>)
+        for b2, i2, el2 in fn.elems():
+            e2 = el2["e"]
+            if isinstance(e2, dict) and e2.get("k") == "asg" and is_var(e2["l"], sv) and isinstance(e2["r"], dict) and e2["r"].get("k") == "ref" and \
+                    el2.get("ln") == elems[i].get("ln") and set(el2.get("mac") or e2["r"].get("mac") and [e2["r"]["mac"]] or []) & set(elems[i].get("mac") or []):
+                out.append(el)
+                break
     if el.get("k") in ("call", "cond"):
         for j in range(i + 1, min(i + 3, len(elems))):
             nx = elems[j]["e"]
@@ -481,7 +596,11 @@ def _events(prog, fn, el, v, sv, assigned=()):
                     if is_release(name) or indirect_rel:
                         ev.append(("release", name or ("(*%s)" % strip(n["f"])["f"]), n.get("ln")))
                     elif call_consumer_kind(prog, fn, n, j) != "borrow":
-                        ev.append(("use", name))
+                        if name and call_consumer_kind(prog, fn, n, j) == "consume" and any(n is c for c in assigned) and _fails_without_keeping(prog, name, j):
+                            # res = callee(.., v, ..): handed over when the call succeeds, still the caller's when it fails
+                            ev.append(("consume", name, n.get("ln")))
+                        else:
+                            ev.append(("use", name))
                         if name and call_consumer_kind(prog, fn, n, j) == "consume" and any(n is c for c in assigned) and \
                                 not re.search(r"List_(append|insertAt|replaceAt)$", name) and \
                                 (consume_fields(prog, name, j) & owning_fields(prog)):
@@ -615,6 +734,7 @@ def _analyse_var(prog, fn, v, sv, rets):
                 states = [(s, vs, acq, used)]
                 acq_ev = None
                 given_ev = None
+                consume_ev = None
                 for x in evs[bid][i]:
                     new_states = []
                     for (s1, vs1, acq1, used1) in states:
@@ -635,7 +755,7 @@ def _analyse_var(prog, fn, v, sv, rets):
                                                                            "released or handed over" % acq1, x[2] or elems[i]["ln"], acq1))
                             new_states.append((s1, N, None, False))
                         elif x[0] == "borrow":
-                            new_states.append((s1, ("B", x[1]) if len(x) > 1 and x[1] else U, None, False))
+                            new_states.append((s1, ("B", x[1]) if len(x) > 1 and x[1] else BU, None, False))
                         elif x[0] == "fieldstore":
                             new_states.append((s1, U if (isinstance(vs1, tuple) and vs1[1] == x[1]) else vs1, acq1, used1))
                         elif x[0] == "unknown":
@@ -644,6 +764,9 @@ def _analyse_var(prog, fn, v, sv, rets):
                             new_states.append((s1, T if vs1 in (O, M, T) else vs1, acq1, used1))
                         elif x[0] == "use":
                             new_states.append((s1, vs1, acq1, True))
+                        elif x[0] == "consume":
+                            consume_ev = x
+                            new_states.append((s1, vs1, acq1, used1))
                         elif x[0] == "given":
                             given_ev = x
                             new_states.append((s1, vs1, acq1, used1))
@@ -692,7 +815,7 @@ def _analyse_var(prog, fn, v, sv, rets):
                     for s2 in ss:
                         if acq_ev is not None and eff is not None:
                             if s2 == OKS:
-                                nxt.add((s2, O if vs1 in (N, M, F, T, O) else U, "%s@%s" % (acq_ev[1], acq_ev[2]), False, ea2))
+                                nxt.add((s2, O if vs1 in (N, M, F, T, O, BU) else U, "%s@%s" % (acq_ev[1], acq_ev[2]), False, ea2))
                             else:
                                 nxt.add((s2, vs1, acq1, used1, ea2))
                         elif acq_ev is not None:
@@ -700,9 +823,20 @@ def _analyse_var(prog, fn, v, sv, rets):
                             nxt.add((s2, vs1, ("pending", acq1, "%s@%s" % (acq_ev[1], acq_ev[2])), used1, ea2))
                         elif isinstance(acq1, tuple) and acq1[0] == "pending" and eff is not None:
                             if s2 == OKS:
-                                nxt.add((s2, O if vs1 in (N, M, F, T, O) else U, acq1[2], False, ea2))
+                                nxt.add((s2, O if vs1 in (N, M, F, T, O, BU) else U, acq1[2], False, ea2))
                             else:
                                 nxt.add((s2, vs1, acq1[1], used1, ea2))
+                        elif consume_ev is not None and eff is not None:
+                            # success: the callee keeps the object; failure: nothing was kept, the state is what it was
+                            nxt.add((s2, (T if vs1 in (O, M, T) else vs1) if s2 == OKS else vs1, acq1, used1, ea2))
+                        elif consume_ev is not None:
+                            nxt.add((s2, ("CP", vs1), acq1, used1, ea2))      # status assigned by the next element: resolved there
+                        elif isinstance(vs1, tuple) and vs1[0] == "CP":
+                            prev = vs1[1]
+                            if eff is None:
+                                nxt.add((s2, prev, acq1, True, ea2))           # never reached a status assignment: a plain use
+                            else:
+                                nxt.add((s2, (T if prev in (O, M, T) else prev) if s2 == OKS else prev, acq1, used1, ea2))
                         elif given_ev is not None and eff is not None and s2 == OKS and vs1 == O:
                             nxt.add((s2, ("G", given_ev[1]), acq1, used1, ea2))
                         elif given_ev is not None and eff is None and vs1 == O:
@@ -787,6 +921,8 @@ def _analyse_var(prog, fn, v, sv, rets):
                         findings.append(Finding("leak", fn, v, "object acquired from %s is still owned when the function returns (status %s)"
                                                 % (acq, "KSI_OK" if s == OKS else "error"), None, acq, list(reversed(p))))
         outs = run_elems(b, st)
+        if os.environ.get("KSI_DEBUG_OWN") == v:
+            print("  block", b, "in", st[:5], "out", sorted(outs, key=str))
         for e in fn.succ[b]:
             for o in outs:
                 if sv and not _refine(fn, e, sv, o[0]):
